@@ -209,7 +209,7 @@ Definition req_header_step (cfg : hcfg) (noHTTP11 : bool) (st : rqst) (k v : byt
           Ok (StOk (if Z.eqb (q_cl st) (-1) then st else set_cl st contentLength v))
         else if cic key strConnection then
           if hasHeaderValue v strClose then Ok (StOk (set_close st true))  (* list-aware, case-insensitive *)
-          else Ok (StOk (set_hh (set_close st false) (appendArg (q_hh st) key v)))
+          else Ok (StOk (set_hh st (appendArg (q_hh st) key v)))   (* 0c9b9fb: does not undo an earlier close *)
         else other
       else if N.eqb c0 (ch "t") then
         if isTE then
